@@ -265,6 +265,59 @@ static std::string lostWakeup(const std::string &kind)
   return ok ? "W woken" : "W STUCK";
 }
 
+
+// several callers blocked on the same condition, released one by one through a given operation of the other
+// side: every state change must wake one of them (the model issues a notify_one for every successful put / take)
+//   M put <api> <cap> <waiters>   producers blocked on a full queue, <waiters> pops through <api> = take|taketo|trytake
+//   M take <api> <cap> <waiters>  consumers blocked on an empty queue, <waiters> pushes through <api> = put|putrv|tryput|tryputrv|putto|puttorv
+static std::string manyWaiters(const std::string &side, const std::string &api, std::size_t cap, int waiters)
+{
+  BlockingQueue<std::uint64_t> q(cap);
+  std::atomic<int> done{0};
+  std::vector<std::thread> th;
+  if (side == "put")
+  {
+    for (std::size_t i = 0; i < cap; ++i) q.tryQueue(100 + i);
+    for (int w = 0; w < waiters; ++w)
+      th.emplace_back([&, w] { const std::uint64_t v = 200 + static_cast<std::uint64_t>(w); if (w % 2) q.queue(v); else q.tryQueue(v, std::chrono::milliseconds(20000)); done++; });
+  }
+  else
+  {
+    for (int w = 0; w < waiters; ++w)
+      th.emplace_back([&, w] { std::uint64_t x; if (w % 2) q.dequeue(x); else q.dequeue(x, std::chrono::milliseconds(20000)); done++; });
+  }
+  // let them all block
+  std::this_thread::sleep_for(std::chrono::milliseconds(60));
+  int before = done.load();
+  for (int k = 0; k < waiters; ++k)
+  {
+    std::uint64_t x = 0;
+    const std::uint64_t v = 300 + static_cast<std::uint64_t>(k);
+    if (side == "put")
+    {
+      if (api == "take") q.dequeue(x);
+      else if (api == "taketo") q.dequeue(x, std::chrono::milliseconds(1000));
+      else { for (int i = 0; i < 2000 && !q.tryDequeue(x); ++i) std::this_thread::sleep_for(std::chrono::milliseconds(1)); } // a released producer refills a small queue
+    }
+    else
+    {
+      if (api == "put") q.queue(v);
+      else if (api == "putrv") q.queue(std::uint64_t(v));
+      else if (api == "tryput") q.tryQueue(v);
+      else if (api == "tryputrv") q.tryQueue(std::uint64_t(v));
+      else if (api == "putto") q.tryQueue(v, std::chrono::milliseconds(1000));
+      else q.tryQueue(std::uint64_t(v), std::chrono::milliseconds(1000));
+    }
+  }
+  for (int i = 0; i < 300 && done.load() < waiters; ++i) std::this_thread::sleep_for(std::chrono::milliseconds(10));
+  int finished = done.load();
+  q.close();
+  for (auto &t : th) t.join();
+  std::ostringstream o;
+  o << "M early=" << before << " finished=" << finished << "/" << waiters;
+  return o.str();
+}
+
 int main(int argc, char **argv)
 {
   if (argc < 3) return 2;
@@ -289,6 +342,7 @@ int main(int argc, char **argv)
       else if (p[0] == "X" && p[1] == "bq") r = stressQueue(std::stoi(p[2]), std::stoi(p[3]), std::stoull(p[4]), std::stoul(p[5]));
       else if (p[0] == "X" && p[1] == "ring") r = stressRing(std::stoull(p[2]), std::stoul(p[3]));
       else if (p[0] == "W") r = lostWakeup(p[1]);
+      else if (p[0] == "M") r = manyWaiters(p[1], p[2], std::stoul(p[3]), std::stoi(p[4]));
       else r = "BADCASE";
     }
     catch (const std::exception &e)
